@@ -2,6 +2,7 @@ import EmmyVerif.Lemmas.Events
 import EmmyVerif.Lemmas.EventsCore
 import EmmyVerif.Lemmas.Reader
 import EmmyVerif.Lemmas.EventsMarker
+import EmmyVerif.Gen.TreeCallGraph
 /-!
 # C01 — Syntax trees are lossless for every input text
 
@@ -107,6 +108,15 @@ theorem C01_bumps_cover_prefix (toks : List TK) (docOn : Bool) (n : Nat) (hne : 
     cover (bumpN toks docOn n (init toks docOn)).events = List.range (bumpN toks docOn n (init toks docOn)).idx := by
   obtain ⟨h1, h2⟩ := init_cover toks docOn hne
   exact (bumpN_inv toks docOn hne n _ ⟨h1, h2⟩).1.1
+
+/-- The one way the grammar can change a token besides `bump` is `set_current_token_kind`; the
+argument list of all its call sites in the Lua grammar is re-extracted from the source on every run
+(`Gen.TreeCallGraph.setKindArgs`): none of them is a trivia or invalid kind, so the token classes the
+core model works with are those of the lexer. -/
+theorem C01_set_kind_keeps_class :
+    ∀ k ∈ Gen.TreeCallGraph.setKindArgs,
+      k ∉ ["TkShortComment", "TkLongComment", "TkEndOfLine", "TkWhitespace", "TkShebang", "TkEof", "None"] := by
+  decide
 
 /-! Non-vacuity (tests): `x --c⏎ ⏎ --d⏎y` — inline comment closes its group at the first end of
 line; doc on: groups `[1,2)` and `[5,6)`. -/
